@@ -77,8 +77,12 @@ SquashB(k) == ToSet(k)
 SquashS(k) == {x \in ToSet(k) : Count(k, x) % 2 = 1}
 Squash(spin, k) == IF spin THEN SquashS(k) ELSE SquashB(k)
 FromRawWith(ts, sq(_)) ==
-    LET ms == {sq(ts[i][1]) : i \in DOMAIN ts}
-    IN Norm(ms, LAMBDA m : SumOver({i \in DOMAIN ts : sq(ts[i][1]) = m}, LAMBDA i : ts[i][2]))
+    LET tt == TLCEval(ts)
+        keys == TLCEval([i \in DOMAIN tt |-> sq(tt[i][1])])
+        ms == {keys[i] : i \in DOMAIN tt}
+        \* accumulate term by term (natively evaluated fold; operands forced first, see MulWith)
+        acc == FoldSet(LAMBDA i, f : [f EXCEPT ![keys[i]] = @ + tt[i][2]], [m \in ms |-> 0], DOMAIN tt)
+    IN Norm(ms, LAMBDA m : acc[m])
 FromRawB(ts) == FromRawWith(ts, SquashB)
 FromRawS(ts) == FromRawWith(ts, SquashS)
 FromRaw(spin, ts) == IF spin THEN FromRawS(ts) ELSE FromRawB(ts)
